@@ -20,6 +20,7 @@ pub mod c19;
 pub mod c20;
 pub mod dom;
 pub mod e2;
+pub mod sweeps;
 pub mod treeh;
 pub mod xmlh;
 
